@@ -45,12 +45,15 @@ func (w *balWorld) balStep(rt *rapid.T, kinds []string) {
 	switch kind {
 	case "transfer":
 		var from, to []byte
-		fromC := rapid.SampledFrom([]string{"pool", "pool", "pool", "pool", "empty", "19", "21"}).Draw(rt, "fromShape")
-		toC := rapid.SampledFrom([]string{"pool", "pool", "pool", "pool", "self", "empty", "19", "21"}).Draw(rt, "toShape")
+		fromC := rapid.SampledFrom([]string{"pool", "pool", "pool", "pool", "pool", "empty", "19", "21", "null"}).Draw(rt, "fromShape")
+		toC := rapid.SampledFrom([]string{"pool", "pool", "pool", "pool", "self", "empty", "19", "21", "null"}).Draw(rt, "toShape")
 		shape := func(c, label string) []byte {
 			switch c {
 			case "empty":
 				return []byte{}
+			case "null":
+				// the Null stack item: the one non-address value the Transfer notification's Hash160 parameter admits
+				return nil
 			case "19":
 				return drawAddr(label)[:19]
 			case "21":
@@ -83,7 +86,14 @@ func (w *balWorld) balStep(rt *rapid.T, kinds []string) {
 		if !(len(op.signers) == 1 && len(from) == 20 && op.signers[0].ScriptHash().BytesBE() != nil && string(op.signers[0].ScriptHash().BytesBE()) == string(from)) && amt.Sign() != 0 {
 			h.Mark("debit-attempt-signers-not-exactly-from")
 		}
-		p1, p2, out := w.do(op, w.bal, "transfer", from, to, amt, nil)
+		var fromArg, toArg any = from, to
+		if from == nil {
+			fromArg = nil
+		}
+		if to == nil {
+			toArg = nil
+		}
+		p1, p2, out := w.do(op, w.bal, "transfer", fromArg, toArg, amt, nil)
 		pre, post = p1, p2
 		w.check(pre, post, out, op)
 		if b, ok := out.Bool(); out.Halt && ok && b && amt.Sign() != 0 {
